@@ -24,6 +24,7 @@ func FormatPacketDsl(dsl string) (string, error) {
 	}
 	// parese the file
 	tree := parser.Packet()
+	reportUnparsedInput(stream, listener)
 	if listener.HasErrors() {
 		return dsl, fmt.Errorf("syntax errors found: %v", listener.Errors)
 	}
